@@ -294,7 +294,25 @@ pub fn check(init: &Seq, ops: &[OpK], results: &[String], times: &[(u64, u64)], 
         }
     }
     // ---- the search ------------------------------------------------------------------------
-    let muts: Vec<usize> = (0..n).filter(|&i| !matches!(ops[i], OpK::Get { .. })).collect();
+    // A `get` that does **not** overlap a writer of its document is searched too: it must fit in
+    // the explaining order after every call on its document that returned before it was issued
+    // and before every one issued after it returned — it sees exactly the acknowledged writes
+    // (in particular never a stale cached value). A `get` that overlaps a writer is only required
+    // to be whole (the property's wording; with the read cache on it may legitimately return the
+    // old value until the writer bumped the generation, even after another read saw the new one).
+    let writes_doc = |j: usize, id: u64| -> bool {
+        match &ops[j] {
+            OpK::Upd { id: x, .. } | OpK::Rm { id: x } => *x == id,
+            OpK::Add { .. } => results[j] == format!("id={id}"),
+            _ => false,
+        }
+    };
+    let muts: Vec<usize> = (0..n)
+        .filter(|&i| match &ops[i] {
+            OpK::Get { id } => !(0..n).any(|j| j != i && writes_doc(j, *id) && times[j].0 <= times[i].1 && times[i].0 <= times[j].1),
+            _ => true,
+        })
+        .collect();
     let must_precede = |a: usize, b: usize| -> bool {
         if times[a].1 >= times[b].0 {
             return false;
@@ -345,7 +363,23 @@ pub fn check(init: &Seq, ops: &[OpK], results: &[String], times: &[(u64, u64)], 
         return Verdict { ok: true, what: String::new(), key: String::new(), expected: String::new(), order };
     }
     // classify the failure for the key
-    let shape: Vec<&str> = muts.iter().map(|&i| match ops[i] { OpK::Add { .. } => "add", OpK::Upd { .. } => "upd", OpK::Rm { .. } => "rm", OpK::Flush => "flush", OpK::Ext { .. } => "ext", OpK::Get { .. } => "get" }).collect();
+    // was it only the reads that could not be placed?
+    let only_muts: Vec<usize> = (0..n).filter(|&i| !matches!(ops[i], OpK::Get { .. })).collect();
+    if only_muts.len() < n {
+        let mut used = vec![false; only_muts.len()];
+        let mut order = vec![];
+        let mut best2 = (0usize, String::new());
+        if dfs(init, ops, results, &only_muts, &mut used, &mut order, init, final_dump, &must_precede, &mut best2) {
+            return Verdict {
+                ok: false,
+                what: "the mutations serialize, but a get cannot be placed in the order: it returned a value that was not current at any point between the calls that returned before it and the calls issued after it (stale read)".into(),
+                key: "get:stale".into(),
+                expected: "a value current at some point of the read's interval".into(),
+                order: vec![],
+            };
+        }
+    }
+    let shape: Vec<&str> = muts.iter().filter(|&&i| !matches!(ops[i], OpK::Get { .. })).map(|&i| match ops[i] { OpK::Add { .. } => "add", OpK::Upd { .. } => "upd", OpK::Rm { .. } => "rm", OpK::Flush => "flush", OpK::Ext { .. } => "ext", OpK::Get { .. } => "get" }).collect();
     let mut sorted = shape.clone();
     sorted.sort();
     let uniq = (init.idx_k as u8) + (init.idx_u as u8);
